@@ -33,6 +33,11 @@ pub struct MOp {
     pub x: String,
     #[serde(default)]
     pub sel: Value,
+    /// async tasks with await points (C20): task id, number of gates to open on resume
+    #[serde(default)]
+    pub task: String,
+    #[serde(default)]
+    pub upto: u32,
 }
 fn one() -> usize {
     1
@@ -58,6 +63,9 @@ pub struct Runner {
     pub workers: Vec<Worker>,
     /// global/async fixtures called at least once in this process (their registrations are permanent)
     pub used: std::cell::RefCell<std::collections::BTreeSet<String>>,
+    /// suspended async tasks: id -> (fixture, key)
+    pub tasks: std::cell::RefCell<HashMap<String, (String, u32)>>,
+    pub hung: std::cell::Cell<bool>,
 }
 
 fn base(ev: &str, n: &str) -> Map<String, Value> {
@@ -80,6 +88,8 @@ impl Runner {
             fixtures: load_fixtures(),
             workers: spawn_workers(max_threads),
             used: std::cell::RefCell::new(std::collections::BTreeSet::new()),
+            tasks: std::cell::RefCell::new(HashMap::new()),
+            hung: std::cell::Cell::new(false),
         }
     }
 
@@ -228,7 +238,7 @@ impl Runner {
                     }
                     let mem = f.cfg.maxmem != 0;
                     let size = if mem { op.size.max(32) } else { 1 };
-                    let resp = self.workers[t - 1].ask(Req::Call {
+                    let resp = self.workers[t - 1].ask_timeout(Req::Call {
                         fixture: f.name.clone(),
                         is_async: f.kind == "async",
                         k: op.k,
@@ -240,7 +250,16 @@ impl Runner {
                         },
                     });
                     let r = match resp {
-                        Resp::Call(r) => r,
+                        Some(Resp::Call(r)) => r,
+                        None => {
+                            // the call does not return: report and stop (the worker is stuck)
+                            let mut e = base("hang", &key);
+                            e.insert("k".into(), json!(format!("{:?}", op.k)));
+                            e.insert("sts".into(), Value::Object(cur.clone()));
+                            out.push(Value::Object(e));
+                            self.hung.set(true);
+                            break;
+                        }
                         _ => panic!("protocol"),
                     };
                     let kstr = format!("{:?}", op.k);
@@ -320,6 +339,142 @@ impl Runner {
                     }
                     if panicked {
                         break;
+                    }
+                }
+                "start" | "resume" | "drop" => {
+                    // C20: an async call suspended at an await inside its body (worker 1 owns the tasks)
+                    let info = self.tasks.borrow().get(&op.task).cloned();
+                    if op.op != "start" && info.is_none() {
+                        continue; // the task already completed (its first poll was a hit)
+                    }
+                    let (fname, kk) = if op.op == "start" {
+                        (op.f.clone(), op.k)
+                    } else {
+                        info.clone().expect("unknown task")
+                    };
+                    let f = self.fixtures.get(&fname).expect("fixture");
+                    let key = f.name.clone();
+                    let kstr = format!("{:?}", kk);
+                    let mem = f.cfg.maxmem != 0;
+                    let free = |keys: &[String]| -> bool {
+                        fx.iter().filter(|g| g.kind != "thread").all(|g| {
+                            verif::inspector(&g.cache_name).map(|i| i.locks_free(keys)).unwrap_or(true)
+                        })
+                    };
+                    if op.op == "drop" {
+                        let resp = self.workers[0].ask_timeout(Req::DropTask { task: op.task.clone() });
+                        self.tasks.borrow_mut().remove(&op.task);
+                        let mut e = base(if resp.is_some() { "drop" } else { "hang" }, &key);
+                        e.insert("k".into(), json!(kstr));
+                        e.insert("task".into(), json!(op.task));
+                        if let Some(Resp::Snap(v)) = resp {
+                            merge(&mut cur, &v);
+                        }
+                        e.insert("locksFree".into(), json!(free(&[kstr.clone()])));
+                        e.insert("sts".into(), Value::Object(cur.clone()));
+                        out.push(Value::Object(e));
+                        continue;
+                    }
+                    let req = if op.op == "start" {
+                        self.tasks.borrow_mut().insert(op.task.clone(), (fname.clone(), kk));
+                        Req::Start {
+                            task: op.task.clone(),
+                            fixture: fname.clone(),
+                            k: kk,
+                            script: CallScript {
+                                ok: op.ok,
+                                cif: op.cif,
+                                inv: op.inv,
+                                size: if mem { op.size.max(32) } else { 1 },
+                            },
+                        }
+                    } else {
+                        Req::Resume {
+                            task: op.task.clone(),
+                            upto: op.upto,
+                        }
+                    };
+                    let (ready, r) = match self.workers[0].ask_timeout(req) {
+                        Some(Resp::Poll(ready, r)) => (ready, r),
+                        _ => {
+                            let mut e = base("hang", &key);
+                            e.insert("task".into(), json!(op.task));
+                            e.insert("sts".into(), Value::Object(cur.clone()));
+                            out.push(Value::Object(e));
+                            self.hung.set(true);
+                            break;
+                        }
+                    };
+                    if ready {
+                        self.tasks.borrow_mut().remove(&op.task);
+                    }
+                    let panicked = r.panic.is_some();
+                    if op.op == "start" {
+                        // the lookup part: same `get` sub-event as an ordinary call
+                        let mut g = base("get", &key);
+                        g.insert("t".into(), json!("t1"));
+                        g.insert("task".into(), json!(op.task));
+                        g.insert("k".into(), json!(kstr));
+                        g.insert("exec".into(), json!(r.executed));
+                        let invn = r.inv_consults.len();
+                        g.insert("invn".into(), json!(invn));
+                        g.insert("inv".into(), json!(if invn == 0 { -1 } else if op.inv { 1 } else { 0 }));
+                        g.insert("invkey".into(), json!(r.inv_consults.first().map(|c| c.0.clone()).unwrap_or_default()));
+                        g.insert("invval".into(), json!(r.inv_consults.first().map(|c| c.1.val).unwrap_or(-1)));
+                        let cached: i64 = if !r.executed {
+                            r.ret.as_ref().map(|o| o.val).unwrap_or(-1)
+                        } else {
+                            r.inv_consults.first().map(|c| c.1.val).unwrap_or(-1)
+                        };
+                        g.insert("ret".into(), json!(cached));
+                        g.insert("cifn".into(), json!(0));
+                        g.insert("cret".into(), json!(r.ret.as_ref().map(|o| o.val).unwrap_or(-1)));
+                        g.insert("cok".into(), json!(r.ret.as_ref().map(|o| o.ok).unwrap_or(true)));
+                        if r.executed {
+                            merge(&mut cur, r.mid.as_ref().unwrap());
+                        } else {
+                            merge(&mut cur, &r.after);
+                        }
+                        if panicked && !r.executed {
+                            g.insert("panic".into(), json!(true));
+                        }
+                        g.insert("sts".into(), Value::Object(cur.clone()));
+                        out.push(Value::Object(g));
+                    }
+                    if !ready {
+                        // still suspended: nothing may have changed, no lock may be held
+                        let mut e = base("pend", &key);
+                        e.insert("task".into(), json!(op.task));
+                        e.insert("k".into(), json!(kstr));
+                        merge(&mut cur, &r.after);
+                        e.insert("locksFree".into(), json!(free(&[kstr.clone()])));
+                        e.insert("sts".into(), Value::Object(cur.clone()));
+                        out.push(Value::Object(e));
+                    } else if r.executed {
+                        let mut e = base("fin", &key);
+                        e.insert("t".into(), json!("t1"));
+                        e.insert("task".into(), json!(op.task));
+                        e.insert("k".into(), json!(kstr));
+                        e.insert("v".into(), json!(r.body_ret));
+                        let est = r.ret.as_ref().map(|o| o.est).unwrap_or(1);
+                        e.insert("size".into(), json!(if mem { est } else { 1 }));
+                        e.insert("mem".into(), json!(mem));
+                        let okv = r.ret.as_ref().map(|o| o.ok).unwrap_or(true);
+                        e.insert("ok".into(), json!(okv));
+                        let cifn = r.cif_consults.len();
+                        e.insert("cifn".into(), json!(cifn));
+                        e.insert("cif".into(), json!(if cifn == 0 { -1 } else if r.cif_consults[0].2 { 1 } else { 0 }));
+                        e.insert("cifkey".into(), json!(r.cif_consults.first().map(|c| c.0.clone()).unwrap_or_default()));
+                        e.insert("cifval".into(), json!(r.cif_consults.first().map(|c| c.1.val).unwrap_or(-1)));
+                        e.insert("cifok".into(), json!(r.cif_consults.first().map(|c| c.1.ok).unwrap_or(true)));
+                        e.insert("cret".into(), json!(r.ret.as_ref().map(|o| o.val).unwrap_or(-1)));
+                        e.insert("cok".into(), json!(okv));
+                        if panicked {
+                            e.insert("panic".into(), json!(true));
+                        }
+                        merge(&mut cur, &r.after);
+                        e.insert("sts".into(), Value::Object(cur.clone()));
+                        out.push(Value::Object(e));
                     }
                 }
                 "tick" => {
@@ -417,7 +572,12 @@ impl Runner {
 
     pub fn run_retry(&self, s: &MScript) -> Vec<Value> {
         for _ in 0..20 {
-            if let Some(v) = self.run(s) {
+            let r = self.run(s);
+            if self.hung.get() {
+                // keep the evidence of the hang even if the second boundary was crossed meanwhile
+                return r.unwrap_or_else(|| vec![json!({"ev": "hang", "n": "", "sts": {}})]);
+            }
+            if let Some(v) = r {
                 return v;
             }
         }
@@ -440,9 +600,15 @@ pub fn cmd_macro(args: &[String]) -> i32 {
         let s: MScript = serde_json::from_str(&line).expect("macro script line");
         w.emit_all(&runner.run_retry(&s));
         n += 1;
+        if runner.hung.get() {
+            break;
+        }
     }
     let lines = w.lines;
     w.finish();
-    println!("{{\"traces\":{},\"events\":{}}}", n, lines);
+    println!("{{\"traces\":{},\"events\":{},\"hung\":{}}}", n, lines, runner.hung.get());
+    if runner.hung.get() {
+        std::process::exit(0); // a worker is stuck: leave without joining it
+    }
     0
 }
